@@ -76,6 +76,26 @@ type base struct {
 	exts     []string
 }
 
+// nameTail draws a tail for a lexical name from the documented shape: letters, digits and single
+// underscores after the first character, never ending in an underscore (T0A_8_BOM, T0A1_B2, T0A_2_0).
+func nameTail(rt *rapid.T) string {
+	const chars = "ABXYZ0123456789"
+	var sb strings.Builder
+	for i, n := 0, []int{0, 0, 1, 2, 3}[ri(rt, 0, 4, "nparts")]; i < n; i++ {
+		if ri(rt, 0, 2, "us") != 0 {
+			sb.WriteByte('_')
+		}
+		for k, m := 0, ri(rt, 1, 3, "plen"); k < m; k++ {
+			if ri(rt, 0, 1, "digit") == 0 {
+				sb.WriteByte(chars[5+ri(rt, 0, 9, "d")])
+			} else {
+				sb.WriteByte(chars[ri(rt, 0, 4, "l")])
+			}
+		}
+	}
+	return sb.String()
+}
+
 func genBase(rt *rapid.T) *base {
 	nf := ri(rt, 1, 3, "nfiles")
 	c := &Case{}
@@ -102,17 +122,17 @@ func genBase(rt *rapid.T) *base {
 		add(f, &Item{Kind: "section-lexer", Lines: []string{"@lexer"}})
 		if f == b.lexFile[0] {
 			add(f, &Item{Kind: "frag", Lines: []string{"@frag [ \\t\\r\\n]+ @discard"}})
-			mn := "DIGIT"
+			mn := "DIGIT" + nameTail(rt)
 			add(f, &Item{Kind: "macro", Name: mn, Lines: []string{"@macro " + mn + " = [0-9]"}})
 			b.macros = append(b.macros, mn)
 			if ri(rt, 0, 1, "m2") == 0 {
-				add(f, &Item{Kind: "macro", Name: "NUMBER", Lines: []string{"@macro NUMBER = DIGIT+ ('.' DIGIT+)?"}})
+				add(f, &Item{Kind: "macro", Name: "NUMBER", Lines: []string{"@macro NUMBER = " + mn + "+ ('.' " + mn + "+)?"}})
 				b.macros = append(b.macros, "NUMBER")
 			}
 		}
 		nt := ri(rt, 2, 5, "ntok")
 		for i := 0; i < nt; i++ {
-			name := fmt.Sprintf("T%d%c", f, 'A'+rune(i))
+			name := fmt.Sprintf("T%d%c", f, 'A'+rune(i)) + nameTail(rt)
 			ch := nextCh()
 			var line string
 			switch ri(rt, 0, 3, "tk") {
@@ -134,8 +154,9 @@ func genBase(rt *rapid.T) *base {
 			}
 		}
 		if ri(rt, 0, 2, "ext") == 0 {
-			add(f, &Item{Kind: "external", Name: fmt.Sprintf("EXT%d", f), Lines: []string{fmt.Sprintf("@external EXT%d EXTB%d", f, f)}})
-			b.exts = append(b.exts, fmt.Sprintf("EXT%d", f))
+			en := fmt.Sprintf("EXT%d", f) + nameTail(rt)
+			add(f, &Item{Kind: "external", Name: en, Lines: []string{fmt.Sprintf("@external %s EXTB%d", en, f)}})
+			b.exts = append(b.exts, en)
 		}
 		if ri(rt, 0, 1, "mode") == 0 {
 			mname := fmt.Sprintf("Mode%d", f)
